@@ -142,7 +142,7 @@ class BadMolfile(Exception):
     pass
 
 
-def read_v3000(text):
+def read_v3000(text, to_int=int):
     """-> (atoms [(index, symbol, (x, y, z), {KEY: int})], bonds [(index, type, a1, a2, tokens)], problems)
     Checks the block structure and counts; joins continuation lines (trailing '-')."""
     raw = text.split("\n")
@@ -183,8 +183,8 @@ def read_v3000(text):
             if "=" in p:
                 k, v = p.split("=", 1)
                 if k in ("CHG", "RAD", "MASS"):
-                    props[k] = int(v)
-        atoms.append((int(t[0]), t[1], (float(t[2]), float(t[3]), float(t[4])), props))
+                    props[k] = to_int(v)
+        atoms.append((to_int(t[0]), t[1], (float(t[2]), float(t[3]), float(t[4])), props))
         j += 1
     if j == len(toks):
         raise BadMolfile("no END ATOM")
@@ -194,7 +194,7 @@ def read_v3000(text):
         j += 1
         while j < len(toks) and toks[j] != ["END", "BOND"]:
             t = toks[j]
-            bonds.append((int(t[0]), int(t[1]), int(t[2]), int(t[3]), t[4:]))
+            bonds.append((to_int(t[0]), to_int(t[1]), to_int(t[2]), to_int(t[3]), t[4:]))
             j += 1
         if j == len(toks):
             raise BadMolfile("no END BOND")
